@@ -30,7 +30,7 @@ INJECT = {"NoInject": [],
 
 class Scn:
     def __init__(self, name, topo="T1", stages="One1", stack="One0", catch="OneF", tx="TxLin", lat="Lat1", pol="PolDrop",
-                 lim="LimNone", menu="MenuChan", start="StartChan", max_inv=6, max_t=12, fix_drain=True, jitter_ns=0, endfail="NoEndFail", replay="NoReplay", inject="NoInject"):
+                 lim="LimNone", menu="MenuChan", start="StartChan", max_inv=6, max_t=12, fix_drain=True, jitter_ns=0, endfail="NoEndFail", replay="NoReplay", inject="NoInject", late_wire=False):
         self.__dict__.update(locals())
 
     def mods(self):
@@ -60,7 +60,7 @@ class Scn:
         return {"mods": self.mods(), "topo": self.topo, "stages": stages, "stack": stack, "catch": catch,
                 "chans": {"1": ch, "2": ch}, "tick_ns": tx["tick_ns"], "bytes": tx["bytes"], "max_t": self.max_t,
                 "per_module": self.jitter_ns > 0, "endfail": ["a"] if self.endfail == "EndFailA" else [],
-                "inject": INJECT[self.inject]}
+                "inject": INJECT[self.inject], "late_wire": self.late_wire}
 
 
 def invs_for(scn):
@@ -263,6 +263,10 @@ def random_families(v, wd, prop, tier):
     run_random(v, wd, prop, Scn("mixF", topo="T2", pol="PolQueue", tx="TxFast", lat="Lat0", stack="Stack2", max_inv=1000, max_t=14), k, "mixF")
     run_random(v, wd, prop, Scn("mixR", topo="T1R", pol="PolQueue", tx="TxLin", lim="Lim200", stack="One0", max_inv=1000, max_t=14), k, "mixR")
     run_random(v, wd, prop, Scn("mixT3", topo="T3", pol="PolQueue", tx="TxLin", stack="Stack012", stages="Stages212", max_inv=1000, max_t=14), k, "mixT3")
+    # the same topology wired during the run: a.o2 -> c.t is connected by module a right before its first use, from the
+    # live (possibly transmitting) channel of a.out as template; the specification does not distinguish the two
+    run_random(v, wd, prop, Scn("mixT3L", topo="T3", pol="PolQueue", tx="TxLin", max_inv=1000, max_t=14, late_wire=True), k, "mixT3L")
+    run_random(v, wd, prop, Scn("mixT3LD", topo="T3", pol="PolDrop", tx="TxLin", max_inv=1000, max_t=14, late_wire=True), k, "mixT3LD")
 
 
 def c07(tier):
